@@ -13,6 +13,14 @@
    (`complete_trace`) and replayed by the compiled model (lean/Driver/C05.lean): every event
    must be an enabled transition of Pipeline with the same payload.
 
+4. mixed-type PrimitiveBlocks (`mixed_pass`): PBF files from the Lean specification encoder
+   (Model/PbfMixed.lean) whose PrimitiveBlocks hold several PrimitiveGroups of different types in
+   every order (dense and plain node groups side by side, plain nodes behind ways, zlib twins,
+   garbage inside one group) x all 8 n/w/r masks (+ changeset bit) x read_meta x pool parsing
+   on/off: monitor = mask-filtered single-threaded read of all types (= the described objects),
+   correspondence = the model decoder `Pbf.decodeFile` run with the SAME mask on the same bytes
+   (Props/C05.lean `pbf_block_mask_is_filter` …; seed C05-3).
+
 Regression probes with stable keys (both defects were found by this check and are fixed in /repo,
 KNOWN_FINDINGS.txt `fixed:` f1844ef, 2856666; verified to fire again on a copy with the fix reverted):
 `o5m-entity-mask-wrong-objects` (o5m files WITHOUT a Reset between the type sections under every
@@ -152,42 +160,61 @@ def o5m_gen(rng, n, order, resets):
 # PBF framing helpers (blobs of a file written by the real Writer; used to build multi-block
 # files by concatenation and to corrupt the n-th block)
 # ------------------------------------------------------------------------------------------
+def pb_walk(b, s, e):
+    """fields of the protobuf message b[s:e]: (tag, wire type, payload start, payload end, varint value)"""
+    out = []
+    i = s
+    while i < e:
+        key = 0
+        sh = 0
+        while True:
+            c = b[i]
+            i += 1
+            key |= (c & 0x7f) << sh
+            sh += 7
+            if c < 0x80:
+                break
+        wt = key & 7
+        if wt == 0:
+            a = i
+            v = 0
+            sh = 0
+            while True:
+                c = b[i]
+                i += 1
+                v |= (c & 0x7f) << sh
+                sh += 7
+                if c < 0x80:
+                    break
+            out.append((key >> 3, 0, a, i, v))
+        elif wt == 1:
+            out.append((key >> 3, 1, i, i + 8, None))
+            i += 8
+        elif wt == 5:
+            out.append((key >> 3, 5, i, i + 4, None))
+            i += 4
+        else:
+            ln = 0
+            sh = 0
+            while True:
+                c = b[i]
+                i += 1
+                ln |= (c & 0x7f) << sh
+                sh += 7
+                if c < 0x80:
+                    break
+            out.append((key >> 3, 2, i, i + ln, None))
+            i += ln
+    return out
+
+
 def pbf_blobs(data):
     """[(start, end)] of every BlobHeader-length + BlobHeader + Blob record"""
     out = []
     p = 0
     while p + 4 <= len(data):
         hl = int.from_bytes(data[p:p + 4], 'big')
-        hdr = data[p + 4:p + 4 + hl]
-        # BlobHeader: field 3 (datasize) varint
-        q = 0
-        ds = 0
-        while q < len(hdr):
-            tag = hdr[q]
-            q += 1
-            if tag & 7 == 2:
-                ln = 0
-                sh = 0
-                while True:
-                    b = hdr[q]
-                    q += 1
-                    ln |= (b & 0x7f) << sh
-                    sh += 7
-                    if b < 0x80:
-                        break
-                q += ln
-            else:
-                v = 0
-                sh = 0
-                while True:
-                    b = hdr[q]
-                    q += 1
-                    v |= (b & 0x7f) << sh
-                    sh += 7
-                    if b < 0x80:
-                        break
-                if tag >> 3 == 3:
-                    ds = v
+        ds = ([f[4] for f in pb_walk(data, p + 4, p + 4 + hl) if f[0] == 3 and f[1] == 0] or [0])[-1]   # BlobHeader.datasize
         end = p + 4 + hl + ds
         out.append((p, end))
         p = end
@@ -427,7 +454,7 @@ def gen_files(ctx, hbin, scratch, rng, quick):
     return files
 
 
-def reference_decode(ctx, hbin, scratch, files):
+def reference_decode(ctx, hbin, scratch, files, per_blob=True):
     """Single-threaded decode of every file: parser on one thread, no pool, no Reader."""
     lines = []
     for name, f in files.items():
@@ -453,6 +480,8 @@ def reference_decode(ctx, hbin, scratch, files):
         ctx.violation('reference-decode-failed', 'single-threaded reference decode failed: rc=%d %s %s'
                       % (rc, [files[n].get('referr') for n in bad][:3], se[-300:]), {'kind': 'harness'}, found_input=False)
         return False
+    if not per_blob:
+        return True
     # objects per PBF data blob (for the model's blob structure): decode header blob + blob i alone
     lines = []
     owners = []
@@ -481,7 +510,10 @@ META_RE = re.compile(r'^([nwr] -?\d+) v\d+ ([VD]) t\d+ c\d+ u\d+ \S+')
 
 
 def strip_meta(d):
-    return META_RE.sub(r'\1 \2', d)
+    """what read_meta::no leaves of an object dump: version, timestamp, changeset, uid, user AND the visible flag
+    are metadata (PBF keeps `visible` in the Info / DenseInfo message that read_meta::no skips; XML does not look at
+    the attribute): a deleted object of a history file comes back visible.  Same definition as C01 (`project`)."""
+    return META_RE.sub(r'\1 V', d)
 
 
 def meta_default_or_equal(got, want):
@@ -490,7 +522,7 @@ def meta_default_or_equal(got, want):
     w = want.split()
     if g[0] not in 'nwr' or len(g) < 8 or len(w) < 8:
         return got == want
-    for i, dflt in ((2, 'v0'), (4, 't0'), (5, 'c0'), (6, 'u0'), (7, '-')):
+    for i, dflt in ((2, 'v0'), (3, 'V'), (4, 't0'), (5, 'c0'), (6, 'u0'), (7, '-')):
         if g[i] != w[i] and g[i] != dflt:
             return False
     return True
@@ -686,6 +718,310 @@ def scenarios_for(rng, files, quick):
     return out
 
 
+# ------------------------------------------------------------------------------------------
+# PBF files whose PrimitiveBlocks hold PrimitiveGroups of DIFFERENT types (legal: only a group is
+# type-homogeneous; Osmosis writes such blocks, libosmium's writer never does) read under every
+# entity mask: the decoder decides per group "decode + commit" or "skip" and must go on with the
+# NEXT group (Props/C05.lean `pbf_block_mask_is_filter`, seed C05-3).  The files come from the Lean
+# specification encoder (Model/PbfMixed.lean `encodeMixed`: blocks cut anywhere out of a
+# type-interleaved object sequence, dense/plain chosen per group, plus every other encoding choice
+# of Model/PbfSpec.lean), so the same bytes go to the real Reader and to the model decoder.
+# ------------------------------------------------------------------------------------------
+GROUP_LETTER = {1: 'n', 2: 'd', 3: 'w', 4: 'r'}   # PrimitiveGroup field -> n plain Node, d DenseNodes, w Way, r Relation
+
+
+def mixed_layout(data):
+    """What is REALLY in a file with raw blobs: per data blob the list of its PrimitiveGroups as
+    (type letters, number of objects, [(payload start, payload end) of every object field])."""
+    blocks = []
+    for (s, e) in pbf_blobs(data)[1:]:
+        hl = int.from_bytes(data[s:s + 4], 'big')
+        raw = [f for f in pb_walk(data, s + 4 + hl, e) if f[0] == 1 and f[1] == 2]
+        if not raw:
+            return None
+        groups = []
+        for g in pb_walk(data, raw[0][2], raw[0][3]):
+            if g[0] != 2 or g[1] != 2:
+                continue
+            objs = [f for f in pb_walk(data, g[2], g[3]) if f[1] == 2 and f[0] in GROUP_LETTER]
+            n = 0
+            for f in objs:
+                if f[0] == 2:
+                    ids = [x for x in pb_walk(data, f[2], f[3]) if x[0] == 1 and x[1] == 2]
+                    n += sum(1 for q in range(ids[0][2], ids[0][3]) if data[q] < 0x80) if ids else 0
+                else:
+                    n += 1
+            groups.append((''.join(sorted({GROUP_LETTER[f[0]] for f in objs})), n, [(f[0], f[2], f[3]) for f in objs]))
+        blocks.append(groups)
+    return blocks
+
+
+def mixed_objects(rng, ch, kinds):
+    """objects of the given kinds (n/w/r), representable under the choice vector (same rules as c02_pbf.gen_case)"""
+    from props import c01_pbf as P, c02_pbf as S
+    g, la, lo, dg = ch.d['g'], ch.d['la'], ch.d['lo'], ch.d['dg']
+    # history files (deleted objects) only where the undefined location of a deleted node is stored exactly: read with
+    # read_meta::no a deleted node comes back visible (see strip_meta) with the coordinates that are in the file
+    hist = rng.chance(1, 3) and (g, la, lo) == (100, 0, 0)
+    lim = lambda v: v if abs(v) <= 2 ** 61 else (2 ** 61 if v > 0 else -2 ** 61)
+    objs = []
+    for k in kinds:
+        o = P.gen_obj(rng, k)
+        o['id'] = lim(o['id'])
+        o['timestamp'] = S.repr_ts(rng, dg)
+        if not hist:
+            o['visible'] = True
+        if k == 'n':
+            o['loc'] = (P.UNDEF, P.UNDEF) if not o['visible'] else (S.repr_coord(rng, g, lo), S.repr_coord(rng, g, la))
+        elif k == 'w':
+            withloc = rng.chance(1, 3)
+            o['nodes'] = [(lim(r), (S.repr_coord(rng, g, lo), S.repr_coord(rng, g, la)) if withloc else (P.UNDEF, P.UNDEF)) for r, _ in o['nodes']]
+        else:
+            o['members'] = [(t, lim(r), role) for t, r, role in o['members']]
+        objs.append(o)
+    return {'generator': rng.choice([b'mixed', b'']), 'hist': hist, 'boxes': []}, objs
+
+
+def mixed_plans(rng, quick, seed):
+    """(name, kind, block layouts, extra choices) — a block layout is a string over n d w r: one PrimitiveGroup per
+    letter (d = the node group is written as DenseNodes).  `dm` (dense/plain per group NUMBER, one pattern per
+    file) is taken from the first block, the other blocks get what that pattern gives them; what the file really
+    holds is measured afterwards (`mixed_layout`)."""
+    plans = []
+    perms = ['nwr', 'nrw', 'wnr', 'wrn', 'rnw', 'rwn']
+    for i, p in enumerate(perms):
+        for dense in ((0, 1) if not quick else ((i + seed) % 2,)):
+            first = p.replace('n', 'd') if dense else p
+            plans.append(('mx%s%d' % (p, dense), 'perm', [first, p[::-1], p[1]], {}))
+    # dense and plain node groups in ONE block; plain nodes behind ways / relations; a type coming back
+    plans.append(('mxdwn', 'dense+plain', ['dwn', 'wrn'], {}))
+    plans.append(('mxnwd', 'dense+plain', ['nwd', 'rwd'], {}))
+    plans.append(('mxwdrn', 'dense+plain', ['wdrn', 'wnrd'], {}))
+    plans.append(('mxnwnwn', 'type-comes-back', ['nwnwn', 'rwrnr'], {}))
+    plans.append(('mxdd', 'group-split', ['nnnn'], {'gs': 1, 'dmx': 0b0101}))
+    for j in range(4 if quick else 40):
+        nb = 1 + rng.below(3)
+        blocks = [''.join(rng.choice('ndwr') for _ in range(2 + rng.below(5))) for _ in range(nb)]
+        g = rng.choice([1, 10, 25, 100, 100, 100, 1000])
+        unit = 100
+        extra = dict(g=g, la=unit * (rng.below(201) - 100), lo=unit * (rng.below(201) - 100), dg=rng.choice([1, 100, 1000, 1000, 2000]), wd=rng.below(2),
+                     od=rng.below(2), vm=rng.below(2), seed=rng.below(1000), ex=rng.below(3), pad=rng.below(3), dup=rng.below(2))
+        if rng.chance(1, 3):
+            extra['gs'] = 1 + rng.below(3)
+        plans.append(('mxr%d' % j, 'random', blocks, extra))
+    return plans
+
+
+def mixed_build(ctx, rng, quick):
+    """-> dict name -> file record ('bytes', 'raw' = the raw-blob bytes the model reads, 'spec' = dumps of the
+    described objects D, 'layout', 'blob_counts', optional 'garbage' = letter of the corrupted group)"""
+    from props import c01_pbf as P, c02_pbf as S
+    ops = []
+    recs = []
+    for name, kind, blocks, extra in mixed_plans(rng, quick, ctx.seed):
+        kinds = []
+        sizes = []
+        dm = extra.pop('dmx', 0)
+        for bi, bl in enumerate(blocks):
+            n0 = len(kinds)
+            for gi, letter in enumerate(bl):
+                k = 'n' if letter in 'nd' else letter
+                if bi == 0 and letter == 'd':
+                    dm |= 1 << (gi % 8)
+                cnt = 1 + rng.below(3)
+                kinds += [k] * cnt
+            sizes.append(len(kinds) - n0)
+        kw = dict(split=','.join(map(str, sizes[:-1])), rest=max(1, sizes[-1]))
+        kw.update(extra)
+        ch = S.Choices(**kw)
+        h, objs = mixed_objects(rng, ch, kinds)
+        ops.append('specmix %d %s | %s' % (dm, ch.s(), ' | '.join([P.dump_header(h)] + [P.dump(o) for o in objs])))
+        recs.append({'name': name, 'kind': kind, 'dm': dm, 'ch': ch, 'objs': objs, 'hdr': h})
+    # the mixed encoder with one pattern for all groups IS the specification encoder of C02
+    same = [('specmix 0 ' + S.Choices(dense=0, rest=3).s(), 'spec ' + S.Choices(dense=0, rest=3).s()),
+            ('specmix 255 ' + S.Choices(dense=1, rest=3).s(), 'spec ' + S.Choices(dense=1, rest=3).s())]
+    tail = ' | ' + ops[0].split(' | ', 1)[1]
+    out = P.run_model(ctx, ops + [a + tail for a, _ in same] + [b + tail for _, b in same])
+    if out is None:
+        return None
+    bad = [o for o, l in zip(ops + [a + tail for a, _ in same] + [b + tail for _, b in same], out) if l.startswith('bad-op')]
+    if bad:
+        ctx.violation('mixed-encoder-rejects-case', 'model_pbf rejected the op `%s`' % P.short(bad[0]), {'kind': 'check-error'}, found_input=False)
+        return None
+    if out[len(ops):len(ops) + 2] != out[len(ops) + 2:]:
+        ctx.violation('mixed-encoder-differs-from-spec-encoder', 'encodeMixed with a constant dense pattern does not produce the bytes of PbfSpec.encode', {'kind': 'check-error'}, found_input=False)
+        return None
+    files = {}
+    for rec, hexs in zip(recs, out):
+        data = bytes.fromhex(hexs) if hexs != '-' else b''
+        lay = mixed_layout(data)
+        f = {'fmt': 'pbf', 'kind': 'mixed-' + rec['kind'], 'bytes': data, 'raw': data, 'spec': [P.dump(o) for o in rec['objs']],
+             'layout': lay, 'blob_counts': [sum(g[1] for g in b) for b in lay], 'specop': rec}
+        files[rec['name']] = f
+    names = list(files)
+    # zlib-compressed twins (python zlib; the model reads the raw twin)
+    for name in [n for i, n in enumerate(names) if i % (5 if quick else 3) == 2]:
+        f = files[name]
+        files[name + 'z'] = dict(f, bytes=S.recompress(f['raw'], len(name) % 2), kind=f['kind'] + '-zlib')
+    # a skipped group is not validated: one object field of one group overwritten with 0xff bytes
+    want = ['w', 'r', 'n', 'd']
+    for name in names:
+        if not want:
+            break
+        f = files[name]
+        hit = None
+        for bi, b in enumerate(f['layout']):
+            for gi, (letters, cnt, objs) in enumerate(b):
+                if letters == want[0] and len(b) > 1 and objs and objs[0][2] - objs[0][1] >= 2 and hit is None:
+                    hit = (bi, gi, objs[0])
+        if hit is None:
+            continue
+        bad = bytearray(f['raw'])
+        bad[hit[2][1]:hit[2][2]] = b'\xff' * (hit[2][2] - hit[2][1])
+        files[name + 'g'] = dict(f, bytes=bytes(bad), raw=bytes(bad), kind='mixed-garbage-in-%s-group' % want[0], garbage=want[0], garbage_at=hit[:2])
+        want.pop(0)
+    return files
+
+
+def mixed_envs(rng, quick):
+    qs = ['1', '2', None]
+    envs = []
+    for up in (True, False) + (() if quick else (True, False)):
+        e = {'OSMIUM_POOL_THREADS': rng.choice(['1', '2', '3', '8'])}
+        for k in ('INPUT', 'OSMDATA', 'WORK'):
+            v = rng.choice(qs)
+            if v:
+                e['OSMIUM_MAX_%s_QUEUE_SIZE' % k] = v
+        if not up:
+            e['OSMIUM_USE_POOL_THREADS_FOR_PBF_PARSING'] = rng.choice(['off', 'false', 'no', '0'])
+        envs.append(e)
+    return envs
+
+
+def ropts(mask, meta):
+    return 'N%dW%dR%dM%d' % (mask & 1, (mask >> 1) & 1, (mask >> 2) & 1, 1 if meta else 0)
+
+
+def mixed_pass(ctx, rng, quick, hbin, scratch, report):
+    """mixed-type PrimitiveBlocks x all entity masks x pool parsing on/off: monitors + correspondence with the
+    model decoder run with the same mask.  Returns the number of traces validated."""
+    from props import c01_pbf as P
+    files = mixed_build(ctx, rng, quick)
+    if files is None:
+        return 0
+    valid = {n: f for n, f in files.items() if 'garbage' not in f}
+    if not reference_decode(ctx, hbin, scratch, valid, per_blob=False):
+        return 0
+    for name, f in files.items():
+        ctx.count('file:pbf:' + f['kind'])
+        for b in f['layout']:
+            ctx.count('mixed:groups-per-block:%d' % len(b))
+            ctx.count('mixed:types-per-block:%d' % len({'n' if g[0] == 'd' else g[0] for g in b}))
+            ctx.count('mixed:type-order:' + ''.join(g[0] or '-' for g in b))
+            if {'n', 'd'} <= {g[0] for g in b}:
+                ctx.count('mixed:block-with-dense-and-plain-nodes')
+            ks = [g[0] for g in b]
+            if any(k in 'nd' and any(x in 'wr' for x in ks[:i]) for i, k in enumerate(ks)):
+                ctx.count('mixed:block-with-nodes-behind-ways-or-relations')
+    # the full single-threaded read returns the described objects (the oracle of the monitors below is sound)
+    for name, f in valid.items():
+        if f['ref'] != f['spec'] or sum(f['blob_counts']) != len(f['spec']):
+            first = next(((a, b) for a, b in zip(f['ref'], f['spec']) if a != b), (f['ref'][len(f['spec']):][:1], f['spec'][len(f['ref']):][:1]))
+            report('mixed-block-full-read:%s' % f['kind'], 'a spec-conformant PBF file with PrimitiveGroups of different types in one PrimitiveBlock (%s; groups per block: %s) '
+                   'is not decoded to the objects it describes by the single-threaded read of all types: %d objects instead of %d; first difference got `%s` expected `%s`'
+                   % (f['specop']['ch'].s(), ' | '.join(''.join(g[0] for g in b) for b in f['layout']), len(f['ref']), len(f['spec']), P.short(str(first[0])), P.short(str(first[1]))),
+                   {'file_hex': hx(f['bytes'])})
+            return 0
+    defs = ['def %s %s' % (n, hx(f['bytes'])) for n, f in files.items()]
+    # the model decoder with the same mask on the same (raw) bytes
+    mkeys = [(n, m, meta) for n in files for m in range(8) for meta in (1, 0)]
+    mout = P.run_model(ctx, ['dec %s %s' % (ropts(m, meta), hx(files[n]['raw'])) for n, m, meta in mkeys])
+    model = None
+    if mout is not None:
+        model = {}
+        for k, l in zip(mkeys, mout):
+            model[k] = 'err' if not l.startswith('ok ') else ' | '.join(['ok'] + l.split(' | ')[1:])
+    nvalid = 0
+    ops, impl_lines, model_lines = [], [], []
+    monitor_hit = False
+    for env in mixed_envs(rng, quick):
+        sc = []
+        for name, f in files.items():
+            n = len(f['bytes'])
+            masks = list(range(8)) + ([8 + rng.below(8)] if quick else list(range(8, 16)))
+            for mask in masks:
+                sc.append(scen(fmt='pbf', data=name, src='mem' if rng.chance(5, 6) else 'file', cuts=cuts_for(rng, n, rng.choice(['none', 'fixed', 'random'])),
+                               mask=mask, meta=rng.choice([1, 1, 0]), bt=rng.choice(['any', 'single']), pool=rng.choice([0, 0, 1, 2, 3, 8]),
+                               hdr=rng.choice([0, 1, 2]), k=-1, stop=rng.choice(['close', 'dtor']), pl=rng.choice([0, 0, 0, 1, 2, 3]), ps=1 + rng.below(1000000),
+                               trace=1 if 'garbage' not in f and rng.chance(1, 4) else 0))
+        blocks = run_process(hbin, scratch, env, defs, sc)
+        ctx.count('env:mixed:' + env_str(env))
+        usepool = env.get('OSMIUM_USE_POOL_THREADS_FOR_PBF_PARSING') is None
+        for b in blocks:
+            f = files.get(b.kv.get('data'))
+            mask = int(b.kv.get('mask', '15'))
+            meta = b.kv.get('meta', '1') == '1'
+            ctx.note_case('mixed ' + env_str(env) + ' ' + b.line)
+            ctx.count('scenario:pbf-mixed')
+            ctx.count('mixed:mask:%s%s' % (''.join(c for c, bit in (('n', 1), ('w', 2), ('r', 4)) if mask & bit) or 'none', '+changeset-bit' if mask & 8 else ''))
+            ctx.count('mixed:pool-parsing:%s' % ('on' if usepool else 'off'))
+            ctx.count('mixed:read_meta:%s' % ('yes' if meta else 'no'))
+            if f is None:
+                continue
+            if 'garbage' in f:
+                b.monitor_hit = False
+                if b.end != 'ok':
+                    b.monitor_hit = True
+                    report('pipeline-stuck:pbf:%s' % f['kind'] if b.end == 'timeout' else 'harness-abort:pbf:%s' % f['kind'],
+                           'scenario `%s` [%s] ended with %s' % (b.line, env_str(env), b.end), {'file_hex': hx(f['bytes'])}, b)
+                ctx.count('mixed:garbage:%s' % ('type-selected' if TYPE_BIT['n' if f['garbage'] == 'd' else f['garbage']] & mask else 'type-skipped'))
+            else:
+                # (at most 8 violations are recorded: one (mask, read_meta) combination each)
+                b.monitor_hit = check_block(ctx, b, files, lambda k, w, e, b=b, f=f: len(ctx.violations) < 8 and report(
+                    k, w + ' — PBF file with PrimitiveGroups of different types in one PrimitiveBlock (groups per block: %s; file: `%s`)'
+                    % (' | '.join(''.join(g[0] for g in bl) for bl in f['layout']), P.short(ops_of(f), 600)), e, b))
+                if b.monitor_hit:
+                    ctx.count('mixed:monitor-hit')
+            monitor_hit = monitor_hit or b.monitor_hit
+            # correspondence: real Reader(mask) vs model decode(mask) on the same bytes
+            if model is not None and b.end == 'ok':
+                if b.obs.get('eof') == '1':
+                    il = ' | '.join(['ok'] + b.objects())
+                elif b.obs.get('error') == '1':
+                    il = 'err'
+                else:
+                    il = 'incomplete'
+                ops.append('dec %s %s [%s] %s' % (ropts(mask & 7, meta), b.kv.get('data'), 'pool' if usepool else 'inline', f['kind']))
+                impl_lines.append(il)
+                model_lines.append(model[(b.kv.get('data'), mask & 7, 1 if meta else 0)])
+        if ctx.exe_build_ok:
+            nvalid += validate_traces(ctx, [b for b in blocks if b.events and not b.monitor_hit], files, report)
+        if len(blocks) < len(sc) and not ctx.violations:
+            ctx.violation('harness-incomplete', 'only %d of %d mixed-block scenarios ran under [%s]' % (len(blocks), len(sc), env_str(env)), {'kind': 'check-error'}, found_input=False)
+        if len(ctx.violations) >= 8:
+            break
+    if model is not None:
+        d = ctx.diff_streams('pbf-mixed-blocks-reader(mask)-vs-model-decode(mask)', ops, impl_lines, model_lines)
+        if d and not [v for v in ctx.violations if v.found_input]:
+            i, op, a, m = d[0]
+            name = op.split()[2]
+            ctx.violation('correspondence:pbf-mask-decoder:%s' % op.split()[-1],
+                          'the real Reader and the model decoder (Pbf.decodeFile with the same entity mask / read_meta) disagree on a PBF file with mixed-type PrimitiveBlocks '
+                          '(%d of %d cases; first: `%s` impl=%s model=%s)' % (len(d), len(ops), op, P.short(a), P.short(m)),
+                          {'kind': 'broken-correspondence', 'file_hex': hx(files[name]['bytes']), 'first': [[P.short(str(z), 2000) for z in x] for x in d[:3]]}, found_input=False)
+    ctx.extra['mixed_block_files'] = len(files)
+    ctx.extra['mixed_block_scenarios'] = len(ops)
+    for n in list(files)[:2]:
+        ctx.sample('mixed file %s: %s' % (n, P.short(ops_of(files[n]), 400)))
+    return nvalid
+
+
+def ops_of(f):
+    from props import c01_pbf as P
+    r = f['specop']
+    return 'specmix %d %s | %s' % (r['dm'], r['ch'].s(), ' | '.join([P.dump_header(r['hdr'])] + f['spec']))
+
+
 def run(ctx):
     rng = ctx.rng
     quick = ctx.tier == 'quick'
@@ -695,7 +1031,11 @@ def run(ctx):
                 'input x explicit pool size x header() placement x perturbation level/seed); all with 256-byte initial parser buffers so that '
                 'nested buffers occur; every case runs the real Reader under real threads; plus complete reads of the multi-blob PBF files with the '
                 'first / a middle / the last data blob made undecodable (blob-fault monitor: what is delivered is a prefix of the decode of '
-                'the blobs before it, never a clean end of data, the read ends with an exception)')
+                'the blobs before it, never a clean end of data, the read ends with an exception); plus PBF files with mixed-type PrimitiveBlocks '
+                '(specification encoder with per-group dense/plain choice: all six orders of n/w/r groups, dense + plain node groups in one block, plain '
+                'nodes behind way/relation groups, a type coming back, group splitting, random layouts with the other encoding choices of C02, zlib '
+                'twins, one unparsable object inside one group) x every n/w/r mask (+ changeset bit) x read_meta x pool parsing on/off, each compared '
+                'with the mask-filtered single-threaded read of all types and with the model decoder run with the same mask')
     ctx.assumptions += [
         'the OS scheduler is not enumerated: the theorems cover all interleavings of the MODEL; the runs validate that behaviours observed '
         'from the implementation (under seeded schedule perturbation) are behaviours of the model and satisfy the property',
@@ -703,9 +1043,12 @@ def run(ctx):
         'the single-threaded decode (the format parser run on one thread without Reader, queues pre-filled) defines `objects file`; its '
         'correctness is C02, its independence of chunking is C06',
     ]
+    ctx.assumptions.append('mixed-type PrimitiveBlocks: Model/PbfMixed.lean encodeMixed is my reading of osmformat.proto (PrimitiveBlock.primitivegroup is '
+                           'repeated, only a PrimitiveGroup is type-homogeneous); read_meta::no is compared modulo version/timestamp/changeset/uid/user and the '
+                           'visible flag (PBF keeps it in Info/DenseInfo)')
     ctx.trusted.append('trace completion in tools/props/c05.py is NOT trusted: every event it proposes is checked by the proved step function')
 
-    proof_ok = ctx.proof_stage(exes=['model_c05'])
+    proof_ok = ctx.proof_stage(exes=['model_c05', 'model_pbf'])
 
     hbin = build_harness(ctx, 'c05rd')
     if hbin is None:
@@ -761,7 +1104,9 @@ def _run(ctx, rng, quick, hbin, scratch, proof_ok):
             ctx.violation('harness-incomplete', 'only %d of %d scenarios ran under [%s]' % (len(blocks), len(sc), env_str(env)), {'kind': 'check-error'}, found_input=False)
         if len(ctx.violations) >= 8:
             break
-    ctx.extra['scenarios_run'] = len(all_blocks)
+    if len(ctx.violations) < 8:
+        nvalid += mixed_pass(ctx, rng, quick, hbin, scratch, report)
+    ctx.extra['scenarios_run'] = len(all_blocks) + ctx.extra.get('mixed_block_scenarios', 0)
     ctx.extra['traces_validated'] = nvalid
     if ctx.exe_build_ok and nvalid == 0 and not ctx.violations:
         ctx.violation('no-trace-validated', 'no trace could be validated against the model', {'kind': 'check-error'}, found_input=False)
